@@ -2,9 +2,25 @@
    Statements only; proofs in Proofs/ReaderP.v, Proofs/FrameP.v (and Proofs/ReaderRefP.v for whole streams). *)
 From Coq Require Import List NArith ZArith Bool.
 From WS Require Import Base.Words Gen.Consts Model.Mask Model.Frame Model.Proto Model.CloseCodec Model.RefDecoder Model.Reader
-  Proofs.FrameP Proofs.ReaderP.
+  Model.Script Proofs.FrameP Proofs.ReaderP Proofs.ReaderRefP.
 Import ListNotations.
 Open Scope N_scope.
+
+(* VALID STREAMS DECODE EXACTLY.  For every sequence of messages a conformant peer may send — arbitrary fragmentation
+   including empty fragments, all three length encodings, every frame masked with its own key iff the sender is a client,
+   any number of Ping / Pong frames before any fragment — for BOTH roles, every sequence of positive caller buffer sizes,
+   and whatever the transport does after the last byte: the read side hands the application exactly the sender's messages
+   (type, payload, order), each with a clean end; it has written exactly one Pong per Ping with the identical payload, in
+   order; it has noted exactly the Pongs received; the stream is consumed and the connection is still open.
+   (Uncompressed messages; no read limit.  Compressed messages are tied by the correspondence with the inflate oracle.) *)
+Theorem C03_valid : forall cfg inflate ms sizes e,
+  Forall wf_smsg ms -> length sizes = length ms -> Forall (fun n => 0 < n)%nat sizes ->
+  let masked := role_eqb (rc_role cfg) Server in
+  let r := run cfg inflate (-1)%Z (enc_script masked ms) e (read_ops sizes) in
+  fst r = expected_obs ms /\ r_replies (snd r) = expected_pongs_written ms /\
+  r_pongs (snd r) = expected_pong_notes ms /\ r_inq (snd r) = [] /\ r_closed (snd r) = false.
+Proof. exact reader_valid_stream. Qed.
+Print Assumptions C03_valid.
 
 (* Every header-level violation of the property's list — reserved bit (RSV2, RSV3, RSV1 when compression was not
    negotiated or not on a text/binary frame), wrong masking for the receiver's role (BOTH directions), reserved
